@@ -75,7 +75,7 @@ def gen_plan(seed: int, run: int, tier: str) -> dict:
     used_params: set = set()
     tasks: dict[str, dict] = {}
     for i, n in enumerate(names):
-        k = rng.randint(2, 4)
+        k = rng.randint(2, 4) if tier == "quick" else rng.randint(2, 5)
         tasks[n] = {"proc": "P%d" % i, "ops": [o for o in c03._task_script(rng, g, n, nobj, shared_running, shared_waiting, used_params, k)]}
     # incompatible distributions raced by two tasks are C03's business, not a crash matter
     def _good(ops_: list[dict]) -> list[dict]:
